@@ -151,8 +151,6 @@ Proof.
 Qed.
 
 (* ---- copyDataFiles ----------------------------------------------------------------------------- *)
-Definition is_some {A} (o : option A) : bool := match o with Some _ => true | None => false end.
-
 (* the source file could be read *)
 Definition readable (F : bfaults) (src : tree) (p : path) : bool :=
   negb (bf_read_src F p) && is_some (plookup p src).
@@ -217,8 +215,8 @@ Qed.
 (* ---- CreateBackup --------------------------------------------------------------------------------- *)
 Definition backup_files (src : tree) : list path := parquet_files src ++ iceberg_files src.
 
-Lemma create_backup_ok permille F id src bk m pg bk' :
-  create_backup permille F id src bk = (BOk m, pg, bk') ->
+Lemma create_backup_ok permille F O env id src bk m pg bk' :
+  create_backup permille F O env id src bk = (BOk m, pg, bk') ->
   exists st1 st2,
     copy_spec F (data_prefix id) src (parquet_files src) 0
       {| cs_bk := bs_files bk; cs_processed := 0; cs_bytes := 0; cs_skipped := 0 |} st1 /\
@@ -267,8 +265,8 @@ Lemma selected_nil : selected [] = false.
 Proof. reflexivity. Qed.
 
 (* content of the backup store after a successful backup *)
-Lemma backup_content permille F id src bk m pg bk' :
-  create_backup permille F id src bk = (BOk m, pg, bk') ->
+Lemma backup_content permille F O env id src bk m pg bk' :
+  create_backup permille F O env id src bk = (BOk m, pg, bk') ->
   (forall p, plookup (data_prefix id ++ p) (bs_files bk') =
              if existsb (fun f => bytes_eqb f p && readable F src f) (backup_files src) then plookup p src
              else plookup (data_prefix id ++ p) (bs_files bk)) /\
@@ -382,26 +380,21 @@ Proof.
   intros Heq. symmetry in Heq. revert Heq. apply app_neq_self, data_prefix_nonempty.
 Qed.
 
-(* decomposition of a restore that got past the manifest and the listing *)
-Lemma restore_backup_run strict R id bk dst r pg dst' :
-  restore_backup strict R id bk dst = (r, pg, dst') ->
+(* ---- step 2 of the restore: restoreDataFiles ---------------------------------------------------------------- *)
+(* decomposition of a data restore that got past the listing *)
+Lemma restore_data_run strict R id bk m dst r pg dst' :
+  restore_data strict R id bk m dst = (r, pg, dst') ->
   pg_completed pg = true ->
-  exists m,
-    plookup id (bs_manifests bk) = Some m /\
     let files := list_prefix (data_prefix id) (bs_files bk) in
     let st := restore_files R (data_prefix id) (bs_files bk) files
                 {| rs_dst := dst; rs_processed := 0; rs_bytes := 0; rs_failed := 0 |} in
     dst' = rs_dst st /\ pg_total_files pg = Z.of_nat (length files) /\ pg_processed pg = rs_processed st /\
     r = ROk /\ (strict = true -> rs_failed st = 0).
 Proof.
-  unfold restore_backup. intros H Hc.
-  destruct (rf_read_manifest R) eqn:Erm.
-  { inversion H; subst. discriminate. }
-  destruct (plookup id (bs_manifests bk)) as [m|] eqn:Em.
-  2:{ inversion H; subst. discriminate. }
+  unfold restore_data. intros H Hc.
   destruct (rf_list_bk R).
   { inversion H; subst. discriminate. }
-  exists m. split; [reflexivity|]. cbn zeta.
+  cbn zeta.
   inversion H; subst; clear H. cbn [pg_completed pg_total_files pg_processed] in *.
   repeat split.
   - rewrite Hc. reflexivity.
@@ -411,8 +404,6 @@ Proof.
     cbn [rs_failed] in S3.
     match type of S3 with _ = 0 + ?c => assert (0 <= c) by apply countb_nonneg end. lia.
 Qed.
-
-(* ---- the theorems ------------------------------------------------------------------------------------------- *)
 
 (* every visible backed-up file is restored when all attempted files were restorable *)
 Lemma all_restorable_all_restored R id bk dst :
@@ -432,24 +423,23 @@ Proof.
   apply Hall; [exact Hin|]. apply attempted_prefixed; exact Hp.
 Qed.
 
-Lemma restore_ok_completed strict R id bk dst pg dst' :
-  restore_backup strict R id bk dst = (ROk, pg, dst') -> pg_completed pg = true.
+Lemma restore_data_ok_completed strict R id bk m dst pg dst' :
+  restore_data strict R id bk m dst = (ROk, pg, dst') -> pg_completed pg = true.
 Proof.
-  unfold restore_backup. intros H.
-  destruct (if rf_read_manifest R then None else plookup id (bs_manifests bk)); [|discriminate].
+  unfold restore_data. intros H.
   destruct (rf_list_bk R); [discriminate|].
   match type of H with context [negb ?b] => destruct (negb b) end; inversion H; subst; reflexivity.
 Qed.
 
-(* repaired restore: success is only reported when every backed-up file is at its destination *)
-Lemma restore_reports_strict R id bk dst pg dst' :
-  restore_backup true R id bk dst = (ROk, pg, dst') ->
+(* current code: the data step succeeds only when every backed-up file is at its destination *)
+Lemma restore_data_reports_strict R id bk m dst pg dst' :
+  restore_data true R id bk m dst = (ROk, pg, dst') ->
   forall p d, p <> [] -> visible p = true -> plookup (data_prefix id ++ p) (bs_files bk) = Some d ->
   plookup p dst' = Some d.
 Proof.
   intros H p d Hp Hv Hl.
-  pose proof (restore_ok_completed _ _ _ _ _ _ _ H) as Hc.
-  destruct (restore_backup_run _ _ _ _ _ _ _ _ H Hc) as (m & _ & Hd & _ & _ & _ & Hfail).
+  pose proof (restore_data_ok_completed _ _ _ _ _ _ _ _ H) as Hc.
+  destruct (restore_data_run _ _ _ _ _ _ _ _ _ H Hc) as (Hd & _ & _ & _ & Hfail).
   specialize (Hfail eq_refl). rewrite Hd.
   apply all_restorable_all_restored; try assumption.
   intros q Hq Hat.
@@ -462,24 +452,24 @@ Proof.
   apply negb_false_iff in Hq0. exact Hq0.
 Qed.
 
-(* the code as it is: whatever per-file faults occur, the restore reports success *)
-Lemma restore_swallows_errors R id bk dst m :
-  rf_read_manifest R = false -> rf_list_bk R = false -> plookup id (bs_manifests bk) = Some m ->
-  fst (fst (restore_backup false R id bk dst)) = ROk /\
-  pg_completed (snd (fst (restore_backup false R id bk dst))) = true.
+(* the previous code: whatever per-file faults occur, the data step reports success *)
+Lemma restore_data_swallows_errors R id bk m dst :
+  rf_list_bk R = false ->
+  fst (fst (restore_data false R id bk m dst)) = ROk /\
+  pg_completed (snd (fst (restore_data false R id bk m dst))) = true.
 Proof.
-  intros H1 H2 H3. unfold restore_backup. rewrite H1, H3, H2. cbn. split; reflexivity.
+  intros H2. unfold restore_data. rewrite H2. cbn. split; reflexivity.
 Qed.
 
-(* guarded: for both variants, success together with processed = total means everything is there *)
-Lemma restore_counts_complete strict R id bk dst r pg dst' :
-  restore_backup strict R id bk dst = (r, pg, dst') ->
+(* for both variants, completion together with processed = total means everything is there *)
+Lemma restore_data_counts_complete strict R id bk m dst r pg dst' :
+  restore_data strict R id bk m dst = (r, pg, dst') ->
   pg_completed pg = true -> pg_processed pg = pg_total_files pg ->
   forall p d, p <> [] -> visible p = true -> plookup (data_prefix id ++ p) (bs_files bk) = Some d ->
   plookup p dst' = Some d.
 Proof.
   intros H Hc Hcnt p d Hp Hv Hl.
-  destruct (restore_backup_run _ _ _ _ _ _ _ _ H Hc) as (m & _ & Hd & Ht & Hpr & _ & _).
+  destruct (restore_data_run _ _ _ _ _ _ _ _ _ H Hc) as (Hd & Ht & Hpr & _ & _).
   rewrite Hd. apply all_restorable_all_restored; try assumption.
   intros q Hq _.
   pose proof (restore_files_spec R (data_prefix id) (bs_files bk) (list_prefix (data_prefix id) (bs_files bk))
@@ -489,18 +479,18 @@ Proof.
   lia.
 Qed.
 
-(* guarded (fault-set form): no per-file fault on the backup's files => complete, counts agree *)
-Lemma restore_no_file_faults strict R id bk dst m :
-  rf_read_manifest R = false -> rf_list_bk R = false -> plookup id (bs_manifests bk) = Some m ->
+(* no per-file fault on the backup's files => success, counts agree, everything restored *)
+Lemma restore_data_no_file_faults strict R id bk m dst :
+  rf_list_bk R = false ->
   ~ In (data_prefix id) (map fst (bs_files bk)) ->
   (forall p, In (data_prefix id ++ p) (map fst (bs_files bk)) -> rf_read_bk R p = false /\ rf_write_dst R p = false) ->
-  let '(r, pg, dst') := restore_backup strict R id bk dst in
-  r = ROk /\ pg_processed pg = pg_total_files pg /\
+  let '(r, pg, dst') := restore_data strict R id bk m dst in
+  r = ROk /\ pg_completed pg = true /\ pg_processed pg = pg_total_files pg /\
   forall p d, p <> [] -> visible p = true -> plookup (data_prefix id ++ p) (bs_files bk) = Some d -> plookup p dst' = Some d.
 Proof.
-  intros H1 H2 H3 Hbare Hnf.
-  destruct (restore_backup strict R id bk dst) as [[r pg] dst'] eqn:E.
-  pose proof E as E'. unfold restore_backup in E'. rewrite H1, H3, H2 in E'.
+  intros H2 Hbare Hnf.
+  destruct (restore_data strict R id bk m dst) as [[r pg] dst'] eqn:E.
+  pose proof E as E'. unfold restore_data in E'. rewrite H2 in E'.
   pose proof (restore_files_spec R (data_prefix id) (bs_files bk) (list_prefix (data_prefix id) (bs_files bk))
                 {| rs_dst := dst; rs_processed := 0; rs_bytes := 0; rs_failed := 0 |}) as (_ & S2 & S3).
   cbn [rs_processed rs_failed] in S2, S3.
@@ -522,25 +512,152 @@ Proof.
   inversion E' as [[Er Epg Ed]]. clear E'.
   replace (0 <? _) with false in * by (symmetry; apply Z.ltb_ge; lia).
   rewrite andb_false_r in *. cbn [negb] in *.
-  split; [reflexivity|]. split.
+  split; [reflexivity|]. split; [reflexivity|]. split.
   - cbn [pg_processed pg_total_files]. lia.
   - intros p d Hp Hv Hl. try rewrite <- Ed. apply all_restorable_all_restored; try assumption.
     intros q Hq _. apply Hall; exact Hq.
+Qed.
+
+(* ---- steps 3 and 4: the optional parts ----------------------------------------------------------------------- *)
+Lemma restore_part_ok rf wf blob cur prev c' p' :
+  restore_part true true rf wf blob cur prev = (true, c', p') -> c' = blob /\ blob <> None.
+Proof.
+  unfold restore_part. cbn [andb].
+  destruct rf; [intros H; inversion H|].
+  destruct blob as [d|]; [|intros H; inversion H].
+  destruct wf; intros H; inversion H; subst. split; [reflexivity|discriminate].
+Qed.
+
+Lemma restore_part_no_faults requested has blob cur prev :
+  (requested = true -> has = true -> blob <> None) ->
+  exists c' p', restore_part requested has false false blob cur prev = (true, c', p') /\
+                (requested = true -> has = true -> c' = blob).
+Proof.
+  intros Hb. unfold restore_part. destruct requested, has; cbn [andb]; try (eexists; eexists; split; [reflexivity|intros; discriminate]).
+  destruct blob as [d|]; [|exfalso; apply Hb; reflexivity].
+  eexists; eexists; split; [reflexivity|reflexivity].
+Qed.
+
+(* ---- RestoreBackup as a whole ---------------------------------------------------------------------------------- *)
+(* a restore that reports success: the manifest was read, the data step (when requested) reported
+   success with exactly this progress and destination, and every requested part the manifest
+   announces is in place *)
+Lemma restore_backup_ok_inv strict R O id bk dst env pg dst' env' :
+  restore_backup strict R O id bk dst env = (ROk, pg, dst', env') ->
+  exists m,
+    plookup id (bs_manifests bk) = Some m /\
+    (if ro_data O then restore_data strict R id bk m dst = (ROk, pg, dst') else (pg = idle_progress /\ dst' = dst)) /\
+    (ro_meta O = true -> m_has_meta m = true ->
+       exists d, plookup id (bs_meta bk) = Some d /\ e_sqlite env' = Some d) /\
+    (ro_cfg O = true -> m_has_cfg m = true ->
+       exists d, plookup id (bs_cfg bk) = Some d /\ e_config env' = Some d).
+Proof.
+  unfold restore_backup. intros H.
+  destruct (rf_read_manifest R); [discriminate|].
+  destruct (plookup id (bs_manifests bk)) as [m|] eqn:Em; [|discriminate].
+  exists m. split; [reflexivity|].
+  destruct (if ro_data O then restore_data strict R id bk m dst else (ROk, idle_progress, dst)) as [[r1 pg1] dst1] eqn:E1.
+  destruct r1; [|discriminate].
+  destruct (restore_part (ro_meta O) (m_has_meta m) (rf_read_meta R) (rf_write_sqlite R)
+              (plookup id (bs_meta bk)) (e_sqlite env) (e_sqlite_prev env)) as [[ok2 sq] sqp] eqn:E2.
+  destruct ok2; cbn [negb] in H; [|discriminate].
+  destruct (restore_part (ro_cfg O) (m_has_cfg m) (rf_read_cfg R) (rf_write_config R)
+              (plookup id (bs_cfg bk)) (e_config env) (e_config_prev env)) as [[ok3 cf] cfp] eqn:E3.
+  destruct ok3; cbn [negb] in H; [|discriminate].
+  inversion H; subst; clear H. cbn [e_sqlite e_config].
+  split; [|split].
+  - destruct (ro_data O); [exact E1|]. inversion E1; subst. split; reflexivity.
+  - intros Hr Hh. rewrite Hr, Hh in E2. destruct (restore_part_ok _ _ _ _ _ _ _ E2) as [-> Hne].
+    destruct (plookup id (bs_meta bk)) as [d|]; [|congruence]. exists d. split; reflexivity.
+  - intros Hr Hh. rewrite Hr, Hh in E3. destruct (restore_part_ok _ _ _ _ _ _ _ E3) as [-> Hne].
+    destruct (plookup id (bs_cfg bk)) as [d|]; [|congruence]. exists d. split; reflexivity.
+Qed.
+
+(* current code: success is reported only when every REQUESTED part is restored *)
+Lemma restore_reports_strict R O id bk dst env pg dst' env' :
+  restore_backup true R O id bk dst env = (ROk, pg, dst', env') ->
+  exists m, plookup id (bs_manifests bk) = Some m /\
+  (ro_data O = true -> forall p d, p <> [] -> visible p = true ->
+     plookup (data_prefix id ++ p) (bs_files bk) = Some d -> plookup p dst' = Some d) /\
+  (ro_meta O = true -> m_has_meta m = true -> exists d, plookup id (bs_meta bk) = Some d /\ e_sqlite env' = Some d) /\
+  (ro_cfg O = true -> m_has_cfg m = true -> exists d, plookup id (bs_cfg bk) = Some d /\ e_config env' = Some d).
+Proof.
+  intros H. destruct (restore_backup_ok_inv _ _ _ _ _ _ _ _ _ _ H) as (m & Hm & Hd & Hmeta & Hcfg).
+  exists m. split; [exact Hm|]. split; [|split; assumption].
+  intros Hro. rewrite Hro in Hd. eapply restore_data_reports_strict; exact Hd.
+Qed.
+
+(* the previous code: with per-file data faults only, success is still reported *)
+Lemma restore_swallows_errors R O id bk dst env m :
+  rf_read_manifest R = false -> rf_list_bk R = false -> plookup id (bs_manifests bk) = Some m ->
+  ro_meta O = false -> ro_cfg O = false ->
+  fst (fst (fst (restore_backup false R O id bk dst env))) = ROk.
+Proof.
+  intros H1 H2 H3 H4 H5. unfold restore_backup. rewrite H1, H3.
+  destruct (ro_data O).
+  - pose proof (restore_data_swallows_errors R id bk m dst H2) as [Hr _].
+    destruct (restore_data false R id bk m dst) as [[r1 pg1] dst1]. cbn in Hr. subst r1.
+    unfold restore_part. rewrite H4, H5. reflexivity.
+  - unfold restore_part. rewrite H4, H5. reflexivity.
+Qed.
+
+(* both variants: success with processed = total means the data is there *)
+Lemma restore_counts_complete strict R O id bk dst env pg dst' env' :
+  restore_backup strict R O id bk dst env = (ROk, pg, dst', env') -> ro_data O = true ->
+  pg_processed pg = pg_total_files pg ->
+  forall p d, p <> [] -> visible p = true -> plookup (data_prefix id ++ p) (bs_files bk) = Some d ->
+  plookup p dst' = Some d.
+Proof.
+  intros H Hro Hcnt.
+  destruct (restore_backup_ok_inv _ _ _ _ _ _ _ _ _ _ H) as (m & _ & Hd & _ & _).
+  rewrite Hro in Hd.
+  eapply restore_data_counts_complete; [exact Hd| |exact Hcnt].
+  eapply restore_data_ok_completed; exact Hd.
+Qed.
+
+(* both variants: no fault during the restore => success, counters agree, every requested part restored *)
+Lemma restore_no_faults strict O id bk dst env m :
+  plookup id (bs_manifests bk) = Some m ->
+  ~ In (data_prefix id) (map fst (bs_files bk)) ->
+  (m_has_meta m = true -> plookup id (bs_meta bk) <> None) ->
+  (m_has_cfg m = true -> plookup id (bs_cfg bk) <> None) ->
+  let '(r, pg, dst', env') := restore_backup strict no_rfaults O id bk dst env in
+  r = ROk /\ pg_processed pg = pg_total_files pg /\
+  (ro_data O = true -> forall p d, p <> [] -> visible p = true ->
+     plookup (data_prefix id ++ p) (bs_files bk) = Some d -> plookup p dst' = Some d) /\
+  (ro_data O = false -> dst' = dst) /\
+  (ro_meta O = true -> m_has_meta m = true -> e_sqlite env' = plookup id (bs_meta bk)) /\
+  (ro_cfg O = true -> m_has_cfg m = true -> e_config env' = plookup id (bs_cfg bk)).
+Proof.
+  intros Hm Hbare Hbm Hbc.
+  unfold restore_backup. cbn [no_rfaults rf_read_manifest rf_read_meta rf_read_cfg rf_write_sqlite rf_write_config]. rewrite Hm.
+  pose proof (restore_data_no_file_faults strict no_rfaults id bk m dst eq_refl Hbare (fun p _ => conj eq_refl eq_refl)) as Hdata.
+  destruct (restore_data strict no_rfaults id bk m dst) as [[rd pgd] dstd].
+  destruct Hdata as (Hrd & _ & Hcnt & Hall).
+  destruct (restore_part_no_faults (ro_meta O) (m_has_meta m) (plookup id (bs_meta bk)) (e_sqlite env) (e_sqlite_prev env))
+    as (sq & sqp & E2 & H2); [intros _ Hh; exact (Hbm Hh)|].
+  destruct (restore_part_no_faults (ro_cfg O) (m_has_cfg m) (plookup id (bs_cfg bk)) (e_config env) (e_config_prev env))
+    as (cf & cfp & E3 & H3); [intros _ Hh; exact (Hbc Hh)|].
+  destruct (ro_data O) eqn:Hro.
+  - subst rd. rewrite E2. cbn [negb]. rewrite E3. cbn [negb e_sqlite e_config].
+    split; [reflexivity|]. split; [exact Hcnt|]. split; [intros _; exact Hall|]. split; [discriminate|]. split; assumption.
+  - rewrite E2. cbn [negb]. rewrite E3. cbn [negb e_sqlite e_config].
+    split; [reflexivity|]. split; [reflexivity|]. split; [discriminate|]. split; [reflexivity|]. split; assumption.
 Qed.
 
 (* ---- backup side: what a successful backup guarantees ------------------------------------------------------- *)
 Lemma selected_visible p : selected p = true -> visible p = true.
 Proof. unfold selected. intros H. apply andb_true_iff in H. tauto. Qed.
 
-Lemma backup_flags_incomplete permille F id src bk m pg bk' :
-  create_backup permille F id src bk = (BOk m, pg, bk') ->
+Lemma backup_flags_incomplete permille F O env id src bk m pg bk' :
+  create_backup permille F O env id src bk = (BOk m, pg, bk') ->
   plookup id (bs_manifests bk') = Some m /\
   m_skipped m = countb (fun f => negb (readable F src f)) (backup_files src) /\
   (forall p, In p (backup_files src) -> bf_read_src F p = true -> 0 < m_skipped m) /\
   (m_skipped m = 0 -> forall p d, selected p = true -> plookup p src = Some d ->
      plookup (data_prefix id ++ p) (bs_files bk') = Some d).
 Proof.
-  intros H. destruct (backup_content _ _ _ _ _ _ _ _ H) as (C1 & C2 & C3 & C4).
+  intros H. destruct (backup_content _ _ _ _ _ _ _ _ _ _ H) as (C1 & C2 & C3 & C4).
   split; [exact C4|]. split; [exact C3|]. split.
   - intros p Hin Hrd. rewrite C3. apply (countb_pos _ _ p Hin).
     unfold readable. rewrite Hrd. reflexivity.
@@ -561,8 +678,8 @@ Proof.
   - eapply IH; exact H.
 Qed.
 
-Lemma create_backup_failed_inv permille F id src bk pg bk' :
-  create_backup permille F id src bk = (BFailed, pg, bk') ->
+Lemma create_backup_failed_inv permille F O env id src bk pg bk' :
+  create_backup permille F O env id src bk = (BFailed, pg, bk') ->
   bf_list_src F = true \/ (exists p, bf_write_bk F p = true) \/ bf_write_manifest F = true \/
   exists st1 st2,
     copy_spec F (data_prefix id) src (parquet_files src) 0
@@ -588,20 +705,60 @@ Proof.
     destruct (bf_write_manifest F); [right; left; reflexivity|discriminate].
 Qed.
 
+(* ---- the optional parts of a successful backup ----------------------------------------------------------------- *)
+Lemma backup_parts permille F O env id src bk m pg bk' :
+  create_backup permille F O env id src bk = (BOk m, pg, bk') ->
+  let meta := part_stored (bo_meta O) (e_sqlite env) (bf_write_meta F) in
+  let cfg := part_stored (bo_cfg O) (e_config env) (bf_write_cfg F) in
+  m_has_meta m = is_some meta /\ m_has_cfg m = is_some cfg /\
+  bs_meta bk' = store_part id meta (bs_meta bk) /\ bs_cfg bk' = store_part id cfg (bs_cfg bk).
+Proof.
+  unfold create_backup. intros H.
+  destruct (bf_list_src F); [discriminate|].
+  destruct (copy_files F (data_prefix id) src (parquet_files src) 0 _) as [st1|st1]; [|discriminate].
+  destruct (match iceberg_files src with [] => CDone st1 | _ :: _ => copy_files F (data_prefix id) src (iceberg_files src) 0 st1 end)
+    as [st2|st2]; [|discriminate].
+  destruct (skip_ratio_exceeded permille (cs_skipped st2) _); [discriminate|].
+  destruct (bf_write_manifest F); [discriminate|].
+  inversion H; subst; clear H. cbn. repeat split; reflexivity.
+Qed.
+
+(* the manifest flags tell the truth: a part is announced iff it was requested, existed locally and
+   could be written - and then it is in the backup store with the local content *)
+Lemma backup_part_flags permille F O env id src bk m pg bk' :
+  create_backup permille F O env id src bk = (BOk m, pg, bk') ->
+  (m_has_meta m = true -> exists d, bo_meta O = true /\ e_sqlite env = Some d /\ plookup id (bs_meta bk') = Some d) /\
+  (m_has_cfg m = true -> exists d, bo_cfg O = true /\ e_config env = Some d /\ plookup id (bs_cfg bk') = Some d) /\
+  (bo_meta O = true -> bf_write_meta F = false -> m_has_meta m = is_some (e_sqlite env)) /\
+  (bo_cfg O = true -> bf_write_cfg F = false -> m_has_cfg m = is_some (e_config env)).
+Proof.
+  intros H. destruct (backup_parts _ _ _ _ _ _ _ _ _ _ H) as (Hm & Hc & Sm & Sc). cbn zeta in *.
+  unfold part_stored in *. repeat split.
+  - intros Ht. rewrite Hm in Ht. destruct (bo_meta O); [|discriminate]. destruct (bf_write_meta F); [discriminate|].
+    destruct (e_sqlite env) as [d|]; [|discriminate]. exists d. repeat split. rewrite Sm. cbn. apply plookup_insert_same.
+  - intros Ht. rewrite Hc in Ht. destruct (bo_cfg O); [|discriminate]. destruct (bf_write_cfg F); [discriminate|].
+    destruct (e_config env) as [d|]; [|discriminate]. exists d. repeat split. rewrite Sc. cbn. apply plookup_insert_same.
+  - intros Hb Hw. rewrite Hb, Hw in Hm. exact Hm.
+  - intros Hb Hw. rewrite Hb, Hw in Hc. exact Hc.
+Qed.
+
 (* ---- the whole property, for every fault set: a backup that says it is complete and a restore that
         says (with its counters) it restored everything reproduce the selected files exactly ------------ *)
-Lemma end_to_end permille strict F R id src bk0 m bpg bk r rpg dst :
+Lemma end_to_end permille strict F BO benv R RO id src bk0 m bpg bk rpg dst renv env' :
   (forall q, In q (map fst (bs_files bk0)) -> has_prefix (data_prefix id) q = false) ->
-  create_backup permille F id src bk0 = (BOk m, bpg, bk) -> m_skipped m = 0 ->
-  restore_backup strict R id bk [] = (r, rpg, dst) -> pg_completed rpg = true ->
+  create_backup permille F BO benv id src bk0 = (BOk m, bpg, bk) -> m_skipped m = 0 ->
+  restore_backup strict R RO id bk [] renv = (ROk, rpg, dst, env') -> ro_data RO = true ->
   pg_processed rpg = pg_total_files rpg ->
   forall p, plookup p dst = if selected p then plookup p src else None.
 Proof.
-  intros Hfresh Hb Hsk Hr Hc Hcnt p.
-  destruct (backup_content _ _ _ _ _ _ _ _ Hb) as (C1 & C2 & C3 & C4).
-  destruct (backup_flags_incomplete _ _ _ _ _ _ _ _ Hb) as (_ & _ & _ & Hcomplete).
+  intros Hfresh Hb Hsk Hr Hro Hcnt p.
+  destruct (backup_content _ _ _ _ _ _ _ _ _ _ Hb) as (C1 & C2 & C3 & C4).
+  destruct (backup_flags_incomplete _ _ _ _ _ _ _ _ _ _ Hb) as (_ & _ & _ & Hcomplete).
   specialize (Hcomplete Hsk).
-  destruct (restore_backup_run _ _ _ _ _ _ _ _ Hr Hc) as (m' & _ & Hd & Ht & Hp & _ & _).
+  destruct (restore_backup_ok_inv _ _ _ _ _ _ _ _ _ _ Hr) as (m' & _ & Hdata & _ & _).
+  rewrite Hro in Hdata.
+  pose proof (restore_data_ok_completed _ _ _ _ _ _ _ _ Hdata) as Hc.
+  destruct (restore_data_run _ _ _ _ _ _ _ _ _ Hdata Hc) as (Hd & Ht & Hp & _ & _).
   pose proof (restore_files_spec R (data_prefix id) (bs_files bk) (list_prefix (data_prefix id) (bs_files bk))
                 {| rs_dst := []; rs_processed := 0; rs_bytes := 0; rs_failed := 0 |}) as (S1 & S2 & _).
   cbn [rs_dst rs_processed] in S1, S2.
@@ -657,13 +814,18 @@ Proof.
   rewrite (readable_no_faults _ _ Hk). reflexivity.
 Qed.
 
-Lemma roundtrip permille strict id src :
-  let '(br, bpg, bk) := create_backup permille no_bfaults id src empty_bstore in
-  let '(rr, rpg, dst) := restore_backup strict no_rfaults id bk [] in
-  (exists m, br = BOk m /\ m_skipped m = 0) /\ rr = ROk /\ pg_processed rpg = pg_total_files rpg /\
-  forall p, plookup p dst = if selected p then plookup p src else None.
+Lemma roundtrip permille strict BO RO benv renv id src :
+  let '(br, bpg, bk) := create_backup permille no_bfaults BO benv id src empty_bstore in
+  let '(rr, rpg, dst, env') := restore_backup strict no_rfaults RO id bk [] renv in
+  (exists m, br = BOk m /\ m_skipped m = 0 /\
+             m_has_meta m = (bo_meta BO && is_some (e_sqlite benv)) /\ m_has_cfg m = (bo_cfg BO && is_some (e_config benv))) /\
+  rr = ROk /\ pg_processed rpg = pg_total_files rpg /\
+  (ro_data RO = true -> forall p, plookup p dst = if selected p then plookup p src else None) /\
+  (ro_data RO = false -> dst = []) /\
+  (ro_meta RO = true -> bo_meta BO = true -> forall d, e_sqlite benv = Some d -> e_sqlite env' = Some d) /\
+  (ro_cfg RO = true -> bo_cfg BO = true -> forall d, e_config benv = Some d -> e_config env' = Some d).
 Proof.
-  destruct (create_backup permille no_bfaults id src empty_bstore) as [[br bpg] bk] eqn:Eb.
+  destruct (create_backup permille no_bfaults BO benv id src empty_bstore) as [[br bpg] bk] eqn:Eb.
   destruct br as [m|].
   2:{ exfalso. apply create_backup_failed_inv in Eb.
       destruct Eb as [H|[[p H]|[H|(st1 & st2 & (_ & _ & A3 & _) & (_ & _ & B3 & _) & Hsk)]]]; try discriminate.
@@ -673,7 +835,9 @@ Proof.
       pose proof (countb_nonneg (fun f => negb (readable no_bfaults src f)) (iceberg_files src)).
       assert (Hs0 : cs_skipped st2 = 0) by lia.
       rewrite Hs0 in Hsk. unfold skip_ratio_exceeded in Hsk. cbn in Hsk. discriminate. }
-  destruct (backup_content _ _ _ _ _ _ _ _ Eb) as (C1 & C2 & C3 & C4).
+  destruct (backup_content _ _ _ _ _ _ _ _ _ _ Eb) as (C1 & C2 & C3 & C4).
+  destruct (backup_parts _ _ _ _ _ _ _ _ _ _ Eb) as (Pm & Pc & Sm & Sc). cbn zeta in Pm, Pc, Sm, Sc.
+  unfold part_stored in Pm, Pc, Sm, Sc. cbn [no_bfaults bf_write_meta bf_write_cfg empty_bstore bs_meta bs_cfg] in Pm, Pc, Sm, Sc.
   assert (Hsk : m_skipped m = 0) by (rewrite C3; apply skipped_no_faults).
   assert (Hbare : ~ In (data_prefix id) (map fst (bs_files bk))).
   { intros Hin. destruct (in_keys_plookup _ _ Hin) as [v Hv].
@@ -683,24 +847,37 @@ Proof.
       apply bytes_eqb_true in Hfp. subst f. apply in_backup_files in Hf as [_ Hsel].
       rewrite selected_nil in Hsel. discriminate.
     - cbn in Hv. discriminate. }
-  pose proof (restore_no_file_faults strict no_rfaults id bk [] m eq_refl eq_refl C4 Hbare
-                (fun p _ => conj eq_refl eq_refl)) as Hr.
-  destruct (restore_backup strict no_rfaults id bk []) as [[rr rpg] dst] eqn:Er.
-  destruct Hr as (Hok & Hcnt & _).
-  split; [exists m; split; [reflexivity|exact Hsk]|]. split; [exact Hok|]. split; [exact Hcnt|].
-  subst rr. pose proof (restore_ok_completed _ _ _ _ _ _ _ Er) as Hc.
-  eapply end_to_end; try eassumption.
-  cbn. tauto.
+  assert (Hmeta : plookup id (bs_meta bk) = if bo_meta BO then e_sqlite benv else None).
+  { rewrite Sm. destruct (bo_meta BO); [|reflexivity]. destruct (e_sqlite benv); cbn [store_part]; [apply plookup_insert_same|reflexivity]. }
+  assert (Hcfg : plookup id (bs_cfg bk) = if bo_cfg BO then e_config benv else None).
+  { rewrite Sc. destruct (bo_cfg BO); [|reflexivity]. destruct (e_config benv); cbn [store_part]; [apply plookup_insert_same|reflexivity]. }
+  assert (Hbm : m_has_meta m = true -> plookup id (bs_meta bk) <> None).
+  { rewrite Pm, Hmeta. destruct (bo_meta BO); [|discriminate]. destruct (e_sqlite benv); [discriminate|discriminate]. }
+  assert (Hbc : m_has_cfg m = true -> plookup id (bs_cfg bk) <> None).
+  { rewrite Pc, Hcfg. destruct (bo_cfg BO); [|discriminate]. destruct (e_config benv); [discriminate|discriminate]. }
+  pose proof (restore_no_faults strict RO id bk [] renv m C4 Hbare Hbm Hbc) as Hr.
+  destruct (restore_backup strict no_rfaults RO id bk [] renv) as [[[rr rpg] dst] env'] eqn:Er.
+  destruct Hr as (Hok & Hcnt & Hdata & Hnodata & Hm & Hc).
+  split.
+  { exists m. split; [reflexivity|]. split; [exact Hsk|]. split.
+    - rewrite Pm. destruct (bo_meta BO); reflexivity.
+    - rewrite Pc. destruct (bo_cfg BO); reflexivity. }
+  split; [exact Hok|]. split; [exact Hcnt|]. subst rr. split; [|split; [exact Hnodata|split]].
+  - intros Hro. eapply end_to_end; try eassumption. cbn. tauto.
+  - intros Hr Hb d Hd. rewrite Hm; [rewrite Hmeta, Hb; exact Hd|exact Hr|].
+    rewrite Pm, Hb, Hd. reflexivity.
+  - intros Hr Hb d Hd. rewrite Hc; [rewrite Hcfg, Hb; exact Hd|exact Hr|].
+    rewrite Pc, Hb, Hd. reflexivity.
 Qed.
 
 (* every file unreadable: the backup cannot succeed when the ratio is below 100 % *)
-Lemma all_unreadable_fails permille F id src bk :
+Lemma all_unreadable_fails permille F O env id src bk :
   0 <= permille < 1000 -> backup_files src <> [] ->
   (forall p, In p (backup_files src) -> bf_read_src F p = true) ->
-  fst (fst (create_backup permille F id src bk)) = BFailed.
+  fst (fst (create_backup permille F O env id src bk)) = BFailed.
 Proof.
   intros Hperm Hne Hall.
-  destruct (create_backup permille F id src bk) as [[br pg] bk'] eqn:E. cbn.
+  destruct (create_backup permille F O env id src bk) as [[br pg] bk'] eqn:E. cbn.
   destruct br as [m|]; [|reflexivity]. exfalso.
   apply create_backup_ok in E.
   destruct E as (st1 & st2 & (_ & _ & A3 & _) & (_ & _ & B3 & _) & _ & _ & _ & Hsk).
